@@ -108,11 +108,47 @@ func ruleC06R1(r *Run) {
 			scan(send, reqPrm, isGenNext, 0)
 		}
 	}
-	sites := p.staticCallSites(send)
-	for _, s := range sites {
+	// the sites at which a request is handed over: the calls of sendRequest, or — when the request there is the
+	// interface-typed parameter of an unexported forwarding function (a generic round-trip helper) — the calls of that
+	// function, with the argument that becomes the request
+	type reqSite struct {
+		at  ssa.Instruction
+		req ssa.Value
+	}
+	var sites []reqSite
+	var expand func(at ssa.Instruction, req ssa.Value, depth int)
+	expand = func(at ssa.Instruction, req ssa.Value, depth int) {
+		fn := at.Parent()
+		if fn.TypeParams().Len() > 0 && len(fn.TypeArgs()) == 0 {
+			return // the uninstantiated body of a generic function: its instances are judged
+		}
+		if prm, isP := canonVal(req).(*ssa.Parameter); isP && depth < 2 && fn.Parent() == nil && types.IsInterface(prm.Type()) && !(fn.Object() != nil && fn.Object().Exported() && fn.Signature.Recv() != nil) {
+			callers := p.staticCallSites(fn)
+			idx := -1
+			for i, q := range fn.Params {
+				if q == prm {
+					idx = i
+				}
+			}
+			if len(callers) > 0 && idx >= 0 && !(fn.Object() != nil && fn.Object().Exported()) {
+				for _, c := range callers {
+					if args := callArgs(instrCall(c)); idx < len(args) {
+						expand(c, args[idx], depth+1)
+					}
+				}
+				return
+			}
+		}
+		sites = append(sites, reqSite{at, req})
+	}
+	for _, s := range p.staticCallSites(send) {
+		expand(s, instrCall(s).Args[2], 0)
+	}
+	for _, rs := range sites {
+		s := rs.at
 		fn := s.Parent()
 		name := fnName(fn)
-		req := instrCall(s).Args[2]
+		req := rs.req
 		ok := false
 		detail := ""
 		if stampInSend {
@@ -220,6 +256,16 @@ func ruleC06R1(r *Run) {
 				}
 			} else {
 				ok = true // zero value
+			}
+		}
+		// IDGenerator{} with no field at all is the zero constant of the struct type
+		for _, ret := range returnsOf(ctor) {
+			for _, v := range retResults(ret) {
+				if flds, isLit := structLitFields(v); isLit && len(flds) == 0 {
+					if _, isK := v.(*ssa.Const); isK {
+						ok = true
+					}
+				}
 			}
 		}
 		r.Check("client generator starts even", ok, p.pos(ctor.Pos()), fnName(ctor), "the client's request id generator must start at an even value")
@@ -558,35 +604,48 @@ func ruleC06R5(r *Run) {
 	name := fnName(send)
 	ok := false
 	detail := "no blocking select"
-	allInstrs(send, func(ins ssa.Instruction) {
-		sel, isSel := ins.(*ssa.Select)
-		if !isSel || !sel.Blocking {
-			return
-		}
-		caller, conn, reply := false, false, false
-		for _, st := range sel.States {
-			if st.Dir != types.RecvOnly {
-				continue
+	found, bad := 0, 0
+	// sendRequest, or the unexported helper the wait was moved to (its ctx parameter is then what sendRequest hands in)
+	p.withHelpers(send, 1, func(g *ssa.Function) {
+		allInstrs(g, func(ins ssa.Instruction) {
+			sel, isSel := ins.(*ssa.Select)
+			if !isSel || !sel.Blocking {
+				return
 			}
-			if cx := doneCtx(st.Chan); cx != nil {
-				l := p.Leaves(cx, provOpts{})
-				for _, x := range l {
-					if strings.HasPrefix(x, "param:") && strings.HasSuffix(x, "#ctx") {
-						caller = true
+			caller, conn, reply := false, false, false
+			for _, st := range sel.States {
+				if st.Dir != types.RecvOnly {
+					continue
+				}
+				if cx := doneCtx(st.Chan); cx != nil {
+					origins, _ := p.originsThroughParams(cx, 0)
+					for _, o := range origins {
+						for _, x := range p.Leaves(o, provOpts{}) {
+							if strings.HasPrefix(x, "param:") && strings.HasSuffix(x, "#ctx") {
+								caller = true
+							}
+							if x == "field:/wire.ClientConn.ctx" {
+								conn = true
+							}
+						}
 					}
-					if x == "field:/wire.ClientConn.ctx" {
-						conn = true
+				} else if _, isDone := doneLike(st.Chan); !isDone {
+					if ch, isCh := st.Chan.Type().Underlying().(*types.Chan); isCh && types.Implements(ch.Elem(), p.Named("/message", "Request").Underlying().(*types.Interface)) {
+						reply = true
 					}
 				}
-			} else if _, isDone := doneLike(st.Chan); !isDone {
-				if ch, isCh := st.Chan.Type().Underlying().(*types.Chan); isCh && types.Implements(ch.Elem(), p.Named("/message", "Request").Underlying().(*types.Interface)) || true {
-					reply = true
-				}
 			}
-		}
-		ok = caller && conn && reply
-		detail = fmt.Sprintf("cases: caller ctx %v, connection ctx %v, reply channel %v", caller, conn, reply)
+			if !reply {
+				return
+			}
+			found++
+			if !(caller && conn) {
+				bad++
+			}
+			detail = fmt.Sprintf("cases: caller ctx %v, connection ctx %v, reply channel %v", caller, conn, reply)
+		})
 	})
+	ok = found > 0 && bad == 0
 	r.Check(name+" waiter select", ok, p.pos(send.Pos()), name, detail)
 }
 
@@ -603,11 +662,12 @@ func ruleLockPairingFor(r *Run, le *LockEngine, id, text string, pick func(*ssa.
 		}
 		fi := le.Info(fn)
 		name := fnName(fn)
-		if len(fi.Reports) == 0 {
+		reports := le.EffectiveReports(fn)
+		if len(reports) == 0 {
 			r.Check(name, true, p.pos(fn.Pos()), name, fmt.Sprintf("%d lock events; all exits release", fi.Events))
 			continue
 		}
-		for _, rep := range fi.Reports {
+		for _, rep := range reports {
 			r.Check(name+" "+rep.Kind+" "+rep.Key, false, p.pos(rep.At), name, rep.Detail, "entry: "+name, "acquire: "+p.pos(rep.Site), "offending point: "+p.pos(rep.At))
 		}
 	}
